@@ -326,7 +326,8 @@ def gen_bc(rng, scale_flux):
         return ['flux', 0.0]
     if r < 0.75:
         return ['flux', rng.choice([-1, 1]) * scale_flux * rng.choice([0.1, 1.0, 3.0])]
-    return ['comp', round(rng.uniform(0.02, 0.3), 4)]
+    # (0 = perfect sink, stored as the minimum composition)
+    return ['comp', rng.choice([round(rng.uniform(0.02, 0.3), 4), round(rng.uniform(0.02, 0.3), 4), 0.0])]
 
 
 def gen_config(rng, model=None, real_ok=True):
